@@ -1,6 +1,10 @@
 package vc
 
 import (
+	"os"
+	"runtime/debug"
+	"runtime"
+	"time"
 	"fmt"
 	"go/token"
 	"go/types"
@@ -67,6 +71,23 @@ func (ex *Exec) IndexFunctions() {
 	}
 }
 
+// SweepKeys: keys of every function and method of the module that is written in source
+// (no closures: they are reached through their parents; no lemma functions, no init).
+func (ex *Exec) SweepKeys() []string {
+	var out []string
+	for k, fn := range ex.FuncByKey {
+		if fn.Parent() != nil || fn.Synthetic != "" || fn.Blocks == nil {
+			continue
+		}
+		if fn.Name() == "init" || strings.HasPrefix(fn.Name(), "lemma") {
+			continue
+		}
+		out = append(out, k)
+	}
+	sort.Strings(out)
+	return out
+}
+
 // InstancesOf returns instantiations of a generic function reachable in the program.
 func (ex *Exec) InstancesOf(key string) []*ssa.Function {
 	var out []*ssa.Function
@@ -128,7 +149,37 @@ func (ex *Exec) VerifyFunction(fn *ssa.Function, key string, ct *Contract) (res 
 	run := &funcRun{key: key, fn: fn, contract: ct, inlined: map[string]bool{}, libCalls: map[string]bool{},
 		unmodelled: map[string]bool{}, contractsUsed: map[string]bool{}, trustedUsed: map[string]bool{},
 		siteIDs: map[*ssa.Function]map[ssa.Instruction]int{}, ensuresAnteReached: map[string]bool{}, allocObjs: map[string]*Object{}, strLens: map[Key]int64{}}
+	run.started = time.Now()
 	ex.cur = run
+	// memory watchdog for this function
+	{
+		var ms runtime.MemStats
+		runtime.ReadMemStats(&ms)
+		if ms.HeapAlloc > uint64(ex.MaxHeapMB)<<19 {
+			runtime.GC()
+			debug.FreeOSMemory()
+		}
+	}
+	abortFlag.Store(0)
+	stopWD := make(chan struct{})
+	go func() {
+		tk := time.NewTicker(100 * time.Millisecond)
+		defer tk.Stop()
+		for {
+			select {
+			case <-stopWD:
+				return
+			case <-tk.C:
+				var ms runtime.MemStats
+				runtime.ReadMemStats(&ms)
+				if ms.HeapAlloc > uint64(ex.MaxHeapMB)<<20 {
+					abortFlag.Store(1)
+					return
+				}
+			}
+		}
+	}()
+	defer func() { close(stopWD); abortFlag.Store(0) }()
 	defer func() {
 		if r := recover(); r != nil {
 			switch e := r.(type) {
@@ -137,7 +188,10 @@ func (ex *Exec) VerifyFunction(fn *ssa.Function, key string, ct *Contract) (res 
 			case evalErr:
 				res.Error = "contract error: " + e.msg
 			default:
-				panic(r)
+				if os.Getenv("GOVC_PANIC") != "" {
+					panic(r)
+				}
+				res.Unsupported = append(res.Unsupported, fmt.Sprintf("engine limitation: %v", r))
 			}
 		}
 		res.Obligations = run.obls
@@ -159,6 +213,12 @@ func (ex *Exec) VerifyFunction(fn *ssa.Function, key string, ct *Contract) (res 
 	names := ex.paramNames(fn, ct)
 	for i, p := range fn.Params {
 		v := ex.symbolicValue(st, p.Type(), names[i], 0)
+		if i == 0 && ct == nil && fn.Signature.Recv() != nil {
+			// zero-annotation sweep: a method is called on a non-nil receiver
+			if pv, ok := v.(*VPtr); ok {
+				pv.Nil = False
+			}
+		}
 		fr.regs[p] = v
 		st.paramVals[names[i]] = v
 	}
@@ -257,6 +317,15 @@ func (ex *Exec) runPath(st *State) (succ []*State, parked bool) {
 			ex.unsupported("step limit exceeded")
 		}
 		st.steps++
+		checkAbort()
+		if steps&1023 == 0 {
+			if ex.GenBudgetS > 0 && time.Since(ex.cur.started).Seconds() > float64(ex.GenBudgetS) {
+				ex.unsupported("VC generation exceeded the budget of %d s (path explosion)", ex.GenBudgetS)
+			}
+			if len(ex.cur.obls) > ex.MaxObls {
+				ex.unsupported("more than %d query instances generated (path explosion)", ex.MaxObls)
+			}
+		}
 		if !ex.step(st) {
 			return nil, false
 		}
